@@ -204,8 +204,11 @@ var c03Defects = []string{
 
 func runC03A(t *testing.T, rng *rand.Rand, rec *sim.Rec, tier string, caseNo int) {
 	noAuth := caseNo%23 == 22
+	// an operator whose auth handler hands out no user ids (every allocation then belongs to ""):
+	// credentials are checked exactly as otherwise, only the per-user ownership rule has no meaning
+	emptyUID := caseNo%5 == 1
 	cfg := sim.Config{
-		Realm: "verif.test", Users: map[string]string{"alice": "pw-a", "bob": "pw-b"}, NoAuth: noAuth,
+		Realm: "verif.test", Users: map[string]string{"alice": "pw-a", "bob": "pw-b"}, NoAuth: noAuth, EmptyUserID: emptyUID,
 		Lifetime: 26 * time.Hour, PermTimeout: 26 * time.Hour, ChanTimeout: 26 * time.Hour,
 		UDPListeners: []*net.UDPAddr{{IP: sim.ServerIP4, Port: 3478}},
 	}
@@ -317,6 +320,9 @@ func runC03A(t *testing.T, rng *rand.Rand, rec *sim.Rec, tier string, caseNo int
 			if state == "no-allocation" && method == wire.MethodAllocate {
 				valid = true // a free 5-tuple may be allocated by any valid user
 			}
+			if emptyUID {
+				valid = true // the operator's handler does not tell users apart
+			}
 		case "no-username":
 			cr.omitUser = true
 		case "no-realm":
@@ -371,7 +377,7 @@ func runC03A(t *testing.T, rng *rand.Rand, rec *sim.Rec, tier string, caseNo int
 
 			continue
 		}
-		rec.FP("defect/m%x/%s/%s/%d/repeated-tid=%v", method, state, defect, code, sameTID)
+		rec.FP("defect/m%x/%s/%s/%d/repeated-tid=%v/empty-uid=%v", method, state, defect, code, sameTID, emptyUID)
 		if code == 0 {
 			kind := "auth-defect-success"
 			if defect == "other-user" {
@@ -700,6 +706,88 @@ func runC03B(t *testing.T, rng *rand.Rand, rec *sim.Rec, tier string, caseNo int
 	rec.SetSample(map[string]any{"impl": impl})
 }
 
+// runC03Rotation: the operator's answer for a user changes while that user holds an allocation
+// (password replaced, account removed): from then on only the key the handler returns *now*
+// authenticates - for requests on the existing allocation and for new ones.
+func runC03Rotation(t *testing.T, rng *rand.Rand, rec *sim.Rec, tier string, caseNo int) {
+	cfg := sim.Config{
+		Realm: "verif.test", Users: map[string]string{"alice": "pw-a", "bob": "pw-b"},
+		UDPListeners: []*net.UDPAddr{{IP: sim.ServerIP4, Port: 3478}},
+	}
+	w, err := sim.NewWorld(cfg, rec, rng, true)
+	if err != nil {
+		t.Fatal(err)
+	}
+	defer w.Shutdown()
+	m := sim.NewModel(w)
+	c, _ := w.NewUDPClient("alice@c0", net.IPv4(10, 1, 0, 1).To4(), 5000, 0, "alice")
+	other, _ := w.NewUDPClient("alice@c1", net.IPv4(10, 1, 0, 1).To4(), 5001, 0, "alice")
+	if r := m.Allocate(c, sim.AllocOpts{Lifetime: sim.U32(3000)}); r == nil || r.Class != wire.ClassSuccess {
+		rec.Inconclusive("allocate failed")
+
+		return
+	}
+	// requests are sent raw from here on (the model does not know about changing passwords)
+	try := func(cl *sim.RawClient, method uint16, pass string) int {
+		for attempt := 0; attempt < 2; attempt++ {
+			tid := w.NewTID()
+			b := wire.NewBuilder(method, wire.ClassRequest, tid)
+			if method == wire.MethodAllocate {
+				b.Add(wire.AttrRequestedTransport, []byte{17, 0, 0, 0})
+			} else {
+				b.AddU32(wire.AttrLifetime, 2000)
+			}
+			b.Add(wire.AttrUsername, []byte("alice"))
+			b.Add(wire.AttrRealm, []byte(cl.Realm))
+			b.Add(wire.AttrNonce, []byte(cl.Nonce))
+			b.AddIntegrity(wire.LongTermKey("alice", cl.Realm, pass))
+			m.Track(cl, tid, method)
+			r := cl.Exchange(b.Bytes(), tid)
+			m.Audit(nil)
+			if r != nil && r.Class == wire.ClassError && (r.ErrorCode() == 401 || r.ErrorCode() == 438) && attempt == 0 {
+				if n, ok := r.Get(wire.AttrNonce); ok {
+					cl.Nonce = string(n)
+				}
+				if rl, ok := r.Get(wire.AttrRealm); ok {
+					cl.Realm = string(rl)
+				}
+
+				continue
+			}
+
+			return codeOfMsg(r)
+		}
+
+		return -1
+	}
+	other.Realm, other.Nonce = c.Realm, c.Nonce
+	cur := "pw-a"
+	rounds := 2 + rng.Intn(3)
+	for i := 0; i < rounds; i++ {
+		old := cur
+		cur = fmt.Sprintf("pw-rotated-%d", rng.Intn(1000000))
+		w.SetPassword("alice", cur)
+		if code := try(c, wire.MethodRefresh, old); code == 0 {
+			rec.Violate("auth-defect-success", "m4/replaced-password", "Refresh signed with a password the operator replaced %d request(s) ago answered success", 1)
+		}
+		if code := try(other, wire.MethodAllocate, old); code == 0 {
+			rec.Violate("auth-defect-success", "m3/replaced-password", "Allocate on a fresh 5-tuple signed with a replaced password answered success")
+		}
+		if code := try(c, wire.MethodRefresh, cur); code != 0 {
+			rec.Violate("auth-valid-rejected", "m4/new-password", "Refresh signed with the user's current password answered %d", code)
+		}
+		rec.FP("rotation/round")
+	}
+	if rng.Intn(2) == 0 {
+		w.SetPassword("alice", "")
+		if code := try(c, wire.MethodRefresh, cur); code == 0 {
+			rec.Violate("auth-defect-success", "m4/removed-account", "Refresh by a user whose account the operator removed answered success")
+		}
+		rec.FP("rotation/account-removed")
+	}
+	rec.SetSample(map[string]any{"kind": "operator-changes-its-answer", "rounds": rounds})
+}
+
 // runC03Concurrent: a server with several listeners mints challenges for many clients at once;
 // the nonce of every 401 must be accepted when the client uses it straight away (the statement's
 // "whose fresh nonce and realm the server itself subsequently accepts"), whichever read loops
@@ -807,6 +895,11 @@ func init() {
 		Run: func(t *testing.T, rng *rand.Rand, rec *sim.Rec, tier string, caseNo int) {
 			if caseNo%6 == 5 {
 				runC03B(t, rng, rec, tier, caseNo/6)
+
+				return
+			}
+			if caseNo%20 == 13 {
+				runC03Rotation(t, rng, rec, tier, caseNo)
 
 				return
 			}
